@@ -180,7 +180,7 @@ fn one_case<const K: usize>(r: &mut Rng, id: usize, out: &mut String) {
             Err(_) => ("panic", "-".to_string(), String::new()),
         };
         out.push_str(&format!(
-            "(case {} compose {} {} {} {} {} {} (pts {}))\n",
+            "(case {} compose {} {} {} {} {} {} (pts {}) (order {}))\n",
             id,
             K,
             sx_tree(&f),
@@ -188,7 +188,10 @@ fn one_case<const K: usize>(r: &mut Rng, id: usize, out: &mut String) {
             g_after,
             oc,
             dump,
-            pts
+            pts,
+            // the list of terminals of the receiver in the order in which they were handed to the generic entry point
+            // (compose: terminal_indices(), ascending); the runner replays the arena-level model with this list
+            order.iter().map(|i| i.to_string()).collect::<Vec<String>>().join(" ")
         ));
     } else {
         let am = if r.chance(1, 12) { m + 1 } else { m };
